@@ -233,8 +233,12 @@ def init_kwargs(form, values):
         return {}
     if form == "tuple":
         return {"init_state": tuple(float(v) for v in values)}
-    if form == "bare":
+    if form == "bare":            # a bare python float instead of a tuple ("also accepts a Tensor or a float")
         return {"init_state": float(values[0])}
+    if form == "bare_int":
+        return {"init_state": int(values[0])}
+    if form == "bare_tensor":     # a bare 0-dim tensor in the global default dtype, e.g. torch.tensor(0.0)
+        return {"init_state": torch.tensor(float(values[0]))}
     if form == "int":
         return {"init_state": tuple(int(v) for v in values)}
     if form == "tensor64":
@@ -249,7 +253,8 @@ def requested_init(kind, name, params, form, values):
     if form == "default":
         spec = SC.GENERATORS[name] if kind == "gen" else SC.INSTRUMENTS[name]
         return list(spec["init"](params))
-    return list(init_kwargs(form, values)["init_state"]) if form != "bare" else [float(values[0])]
+    st = init_kwargs(form, values)["init_state"]
+    return [st] if form.startswith("bare") else list(st)
 
 
 # ---------------------------------------------------------------------------------
@@ -1004,9 +1009,19 @@ def _init_forms(ctx, kind, name):
     forms.append(("tensor64", INIT_VALUES[gen][0]))
     if ctx.thorough:
         forms.append(("tensor32", INIT_VALUES[gen][0]))
-    if kind == "gen" and SC.GENERATORS[gen]["bare"]:
+    # bare scalars (not wrapped in a tuple): cast_state and the generators' documentation accept them, and every
+    # single-series instrument passes init_state through unchanged.  A zero initial state (falsy!) is admissible
+    # for the series that are not exponential-type prices.
+    single = len(INIT_VALUES[gen][0]) == 1
+    if single and (kind == "inst" or SC.GENERATORS[gen]["bare"]):
         forms.append(("bare", INIT_VALUES[gen][0]))
+        forms.append(("bare_tensor", INIT_VALUES[gen][0]))
+        if gen in ZERO_START:
+            forms += [("bare", [0.0]), ("bare_int", [0]), ("bare_tensor", [0.0])]
     return forms
+
+
+ZERO_START = ("brownian", "cir", "vasicek")     # a zero initial state is admissible (not an exponential-type price)
 
 
 def _quick_tree(J, pi, form, values, default, dtype, n_steps, depth, init_values):
@@ -1014,12 +1029,12 @@ def _quick_tree(J, pi, form, values, default, dtype, n_steps, depth, init_values
     first_value = form != "tuple" or values == init_values[0]
     if default == "float64":
         # non-default global dtype: requested None / narrower / half, one horizon
-        return dtype in (None, "float32", "float16") and n_steps == 3 and first_value and form != "bare"
+        return dtype in (None, "float32", "float16") and n_steps == 3 and first_value and not form.startswith("bare")
     if J >= 75 and depth == 2 and not (dtype in (None, "float64", "float16") and form in ("default", "tuple")):
         return False      # large joint alphabets: depth 2 only on the main rows
     if n_steps == 7:
         return pi < 2 and form in ("default", "tuple") and first_value and dtype != "bfloat16"
-    if form in ("int", "tensor64", "bare"):
+    if form in ("int", "tensor64", "bare", "bare_int", "bare_tensor"):
         return pi == 0 and n_steps == (3 if J < 75 else 2)
     return True
 
